@@ -1226,6 +1226,9 @@ def run(tier, seed):
     # glue code (DESIGN 11.7, third round): whose captured output the <testcase> and its rerun elements carry, read from
     # the TestFinished arm of MetadataJunit::write_event
     gen_tie.gate(chk, ['junit_test_case'], gate, family="glue")
+    # fourth round: which streams UnitOutputReporter::write_child_output writes as sections (and under which headers),
+    # regenerated from the source and proved equal to Model/DisplaySections.v (each stream on its own account)
+    gen_tie.gate(chk, ['display_sections'], gate, family="glue")
     checker = "make -C coq Properties/C16.vo && coqc gen/assump_C16.v (Print Assumptions)"
     binary, err = vlib.build_harness()
     if binary is None:
